@@ -192,6 +192,36 @@ func eventChannel(ev gomavlib.Event) *gomavlib.Channel {
 	return nil
 }
 
+// checkBrackets is the per-channel half of C10 over a whole event history: for every channel value (pointer) the
+// first event is its one and only open event, and after its one close event nothing of it arrives - a connection
+// that comes back is a new channel.
+func checkBrackets(recs []sim.Rec) error {
+	state := map[*gomavlib.Channel]int{} // 0 unseen, 1 open, 2 closed
+	for i, r := range recs {
+		ch := eventChannel(r.Ev)
+		if ch == nil {
+			return fmt.Errorf("event %d (%s) names no channel", i, evName(r.Ev))
+		}
+		switch r.Ev.(type) {
+		case *gomavlib.EventChannelOpen:
+			if state[ch] != 0 {
+				return fmt.Errorf("event %d: a second open event for channel %v (%p), which had %s: a channel opens once; a connection that comes back is a new channel", i, ch, ch, map[int]string{1: "already opened and not closed", 2: "been closed"}[state[ch]])
+			}
+			state[ch] = 1
+		case *gomavlib.EventChannelClose:
+			if state[ch] != 1 {
+				return fmt.Errorf("event %d: close event for channel %v (%p) in state %d (0 never opened, 2 closed before)", i, ch, ch, state[ch])
+			}
+			state[ch] = 2
+		default:
+			if state[ch] != 1 {
+				return fmt.Errorf("event %d (%s) belongs to channel %v (%p), which %s", i, evName(r.Ev), ch, ch, map[int]string{0: "has not opened yet", 2: "has been closed"}[state[ch]])
+			}
+		}
+	}
+	return nil
+}
+
 func evName(ev gomavlib.Event) string {
 	s := fmt.Sprintf("%T", ev)
 	return strings.TrimPrefix(s, "*gomavlib.Event")
